@@ -34,6 +34,8 @@ const (
 	key32Overflow = "C20:ExternalProduct:32bit:lazy-accumulator-overflow"
 	// blind rotation: mask coefficients that switch to 0 or to -1 modulo 2N are multiplied in as X^{+s_i}
 	keyMaskQuirk = "C20:blindrot.Evaluate:mask-coefficient-0-or-minus-1-processed-as-plus-1"
+	// rlwe gadget product with an evaluation key at LevelP = -1 under parameters that have P: PiOverflowMargin(-1) panics
+	keyLevelPNone = "C20:blindrot.Evaluate:keys-LevelP=-1-under-params-with-P:panic@PiOverflowMargin"
 	// rgsw.Encryptor.Encrypt, plaintext with IsNTT && IsMontgomery: CopyLvl is called with receiver and argument swapped
 	keyPtClobbered = "C20:rgsw.Encrypt:pt-ntt-montgomery:buffer-encrypted-plaintext-overwritten"
 )
